@@ -6,6 +6,9 @@ import (
 	"encoding/json"
 	"flag"
 	"fmt"
+	"io"
+	"net/http"
+	"net/http/httptest"
 	"os"
 	"path/filepath"
 	"strconv"
@@ -48,6 +51,41 @@ func (s *stubSub) OwnerOf(ctx context.Context, nft, tok, bh string) (string, err
 }
 
 var cache *subscriber.BlockCache
+
+// the feeder's real Ethereum subscriber, pointed at a local server that records the eth_call it receives
+var (
+	rpcSrv  *httptest.Server
+	rpcSub  *subscriber.EthereumSubscriber
+	rpcLast struct {
+		Params []json.RawMessage `json:"params"`
+	}
+)
+
+func ownerOfCall(contract, token string) string {
+	if rpcSrv == nil {
+		rpcSrv = httptest.NewServer(http.HandlerFunc(func(w http.ResponseWriter, r *http.Request) {
+			b, _ := io.ReadAll(r.Body)
+			rpcLast.Params = nil
+			_ = json.Unmarshal(b, &rpcLast)
+			fmt.Fprint(w, `{"jsonrpc":"2.0","id":"1","result":"0x0000000000000000000000000101010101010101010101010101010101010101"}`)
+		}))
+		var err error
+		rpcSub, err = subscriber.NewEthereumSubscriber("1", rpcSrv.URL, nil)
+		must(err)
+	}
+	rpcLast.Params = nil
+	if _, err := rpcSub.OwnerOf(context.Background(), contract, token, "abc"); err != nil || len(rpcLast.Params) == 0 {
+		return "err"
+	}
+	var call struct {
+		To   string `json:"to"`
+		Data string `json:"data"`
+	}
+	if json.Unmarshal(rpcLast.Params[0], &call) != nil {
+		return "err"
+	}
+	return "ok to=" + world.EncStr(strings.ToLower(call.To)) + " data=" + world.EncStr(strings.ToLower(call.Data))
+}
 
 func catchP(f func() string) (out string) {
 	defer func() {
@@ -111,6 +149,8 @@ func pureExec(line string) string {
 			return "ok " + feeder.GeneratePrevoteHash(itypes.VoteDataArr(world.ParseVoteData(f[2])), S(f[1]))
 		case "trim":
 			return "ok " + world.EncStr(itypes.TrimHexZeroes(S(f[1])))
+		case "ownerof": // contract token: the eth_call the feeder sends for ownerOf(token)
+			return ownerOfCall(S(f[1]), S(f[2]))
 		case "fmtentry": // nftid owner
 			id := S(f[1])
 			subs := map[string]subscriber.Subscriber{}
@@ -221,6 +261,36 @@ func randHex(r *rng.R) string {
 	return p + string(b)
 }
 
+// randHexDigits: well-formed hex only (0x + digits), any length up to 64 digits, any case
+func randHexDigits(r *rng.R) string {
+	n := 1 + r.N(64)
+	if r.P(1, 3) {
+		n = 1 + r.N(4)
+	}
+	b := make([]byte, n)
+	for i := range b {
+		b[i] = "0123456789abcdefABCDEF"[r.N(22)]
+	}
+	return "0x" + string(b)
+}
+
+func randAddr(r *rng.R) string {
+	b := make([]byte, 40)
+	for i := range b {
+		b[i] = "0123456789abcdefABCDEF"[r.N(22)]
+	}
+	for i, k := 0, r.N(4); i < k; i++ {
+		b[39-i] = '0'
+	}
+	if r.P(1, 3) {
+		for i, k := 0, 1+r.N(24); i < k; i++ {
+			b[i] = '0'
+		}
+	}
+	pad := rng.Pick(r, []string{"0x", "0x", "0x000000000000000000000000"}) // eth_call returns a 32-byte word
+	return pad + string(b)
+}
+
 func randEntry(r *rng.R) string {
 	switch r.N(10) {
 	case 0:
@@ -253,7 +323,14 @@ func genPure(r *rng.R, n int) []string {
 	add := func(format string, a ...interface{}) { ops = append(ops, fmt.Sprintf(format, a...)) }
 	E := world.EncStr
 	for i := 0; i < n; i++ {
-		switch r.N(16) {
+		switch r.N(17) {
+		case 16:
+			// the lookup the feeder makes for a recorded NFT: normalised contract, token id as the chain stores it (or as submitted)
+			tok := randHexDigits(r)
+			if r.P(1, 2) {
+				tok = string(ctypes.NormalizeHexAddress(tok))
+			}
+			add("ownerof %s %s", E(string(ctypes.NormalizeHexAddress(randHexDigits(r)))), E(tok))
 		case 0:
 			add("normhex %s", E(randHex(r)))
 		case 1:
@@ -280,6 +357,9 @@ func genPure(r *rng.R, n int) []string {
 				id = rng.Pick(r, chainish) + "/" + randHex(r) + "/" + randHex(r)
 			}
 			owner := randHex(r)
+			if r.P(1, 2) {
+				owner = randAddr(r) // what an external chain's ownerOf actually returns: a 20-byte address (zero nibbles at either end included)
+			}
 			add("parsenft %s", E(id))
 			add("fmtentry %s %s", E(id), E(owner))
 		case 9:
@@ -304,7 +384,17 @@ func genPure(r *rng.R, n int) []string {
 			salt := rng.Pick(r, []string{"", "s", "AB12"})
 			add("hash %s O:%s,%s", E(salt), E(e1), E(e2))
 			add("validvd O:%s,%s =1,=137", E(e1), E(e2))
-			switch r.N(3) {
+			switch r.N(5) {
+			case 3:
+				// the two entries glued into one string: not an entry, must not be an acceptable opening
+				add("hash %s O:%s", E(salt), E(e1+e2))
+				add("validvd O:%s =1,=137", E(e1+e2))
+			case 4:
+				// a reveal that carries more than was committed
+				add("hash %s O:%s", E(salt), E(e1))
+				add("validvd O:%s =1,=137", E(e1))
+				add("hash %s O:%s;O:%s", E(salt), E(e1), E(e2))
+				add("validvd O:%s;O:%s =1,=137", E(e1), E(e2))
 			case 0:
 				add("hash %s O:%s", E(salt+e1), E(e2))
 				add("validvd O:%s =1,=137", E(e2))
